@@ -505,6 +505,22 @@ example : ∃ rows, chainRows (fun _ => none) (fun _ _ p => p) id
   iform2_max_first_variable_circle (fun _ => none) (fun _ _ p => p) id
     (fun i j _ h => by cases h) (fun a b h => h) 2 2 (by norm_num) rfl 3
 
+/-- non-vacuity of `iform2_contour_radius` (and of `contour_radius`): identity leaves, first dimension
+unconditional, second conditional on the first, meet `hFQ`, `hΦ` and `Hier c 2`. -/
+example : ∃ rows, chainRows (fun i => if i = 1 then some 0 else none) (fun _ _ p => p) id
+      (scaleRows 3 (circleRows Real.cos Real.sin (realCircleAngles 5))) = some rows ∧
+    rows.length = (realCircleAngles 5).length ∧
+    ∀ k (_ : k < (realCircleAngles 5).length), ∃ row u, rows[k]? = some row ∧ row.length = 2 ∧
+      ros (fun i => if i = 1 then some 0 else none) (fun _ _ x => id x) row = some u ∧
+      normSq u = (3 : ℝ) * 3 :=
+  iform2_contour_radius (fun i => if i = 1 then some 0 else none) (fun _ _ x => x) (fun _ _ p => p)
+    id id (fun _ => True) (fun _ _ _ _ => rfl) (fun _ => ⟨trivial, rfl⟩)
+    (fun i j hi h => by
+      by_cases h1 : i = 1
+      · subst h1; simp at h; omega
+      · simp [h1] at h)
+    3 (realCircleAngles 5)
+
 /-! ### NSphere (n_dim ≥ 3): the returned points are unit vectors
 
 Mathematics about an UN-EXECUTED sketch: `normalizeRow` and `bestState` are defined here, are not
